@@ -42,7 +42,7 @@ func init() {
 var (
 	// no key is a directory of another key (a file store cannot hold both); d/x vs d/xy and
 	// d vs dd share string prefixes without being in a directory relation; d/s/x is nested.
-	c49Keys = []string{"d/x", "d/xy", "d/s/x", "dd/x", "top"}
+	c49Keys = []string{"d/x", "d/xy", "d/s/x", "dd/x", "top", "d/s"}
 	// distinct lengths so Stat sizes differ; the last one is the empty (non-nil) value
 	c49Vals = [][]byte{[]byte("v1"), []byte("v22"), {}}
 	// directories, a directory with a trailing slash, a file, a string prefix of a file name,
@@ -97,9 +97,9 @@ func c49AllOps() (all []c49Op, mutators []int, observers []int) {
 }
 
 // c49Model: value index per key, -1 = does not exist. A flat file store.
-type c49Model [5]int8
+type c49Model [6]int8
 
-func c49EmptyModel() c49Model { return c49Model{-1, -1, -1, -1, -1} }
+func c49EmptyModel() c49Model { return c49Model{-1, -1, -1, -1, -1, -1} }
 
 // children is the reference for a non-recursive listing of directory p: every immediate
 // child (file or sub-directory) of p that contains at least one stored key, as p/child.
@@ -610,7 +610,7 @@ func c49(c *report.Check) {
 	c.Set("samples", samples)
 	c.Set("rule", fmt.Sprintf("(a) every history of length 1..%v over all %v operations {store 5 keys x 3 values, delete, load, exists, stat on the 5 keys %q; non-recursive list of %q; recursive list of %q}, each on a fresh ChordStorage over a fresh kv/memory KV, last step judged (prefixes are histories of their own) and, for lengths <= 3, all %v observers then applied and judged on the reached state; every mutator-only history of length 1..%v with last step and observer battery judged; (b) every interleaving of length %v of {X.Lock (single Acquire attempt), X.Unlock, X.RenewLockLease, clock advance 0.6*TTL} over instances sharing one KV, see lock_rule; class = (operation, outcome, number of stored keys) / (event, outcome, lease state)",
 		c.Coverage["history_depth_all_ops"], c.Coverage["history_ops_alphabet"], c49Keys, c49ListPrefixes, c49RecListPrefixes, c.Coverage["history_observer_battery_size"], c.Coverage["history_depth_mutators"], c.Coverage["lock_depth"]))
-	c.Assume("file-store reference: a flat map key->value; a directory exists iff a stored key lies below it; no key of the alphabet is a directory of another key; listing a missing directory may yield an empty list or fs.ErrNotExist; results of recursive listings, Modified times and the return value of deleting an absent key are not compared (statement silent)")
+	c.Assume("file-store reference: a flat map key->value; a directory exists iff a stored key lies below it; one key (d/s) is both a stored key and the parent of another (d/s/x): it must be listed once; listing a missing directory may yield an empty list or fs.ErrNotExist; results of recursive listings, Modified times and the return value of deleting an absent key are not compared (statement silent)")
 	c.Assume("the empty value is stored as a non-nil zero-length slice; a directory child that holds only zero-length values may or may not be listed (the KV contract treats empty simple values as absent) - not judged")
 	c.Assume("the KV is the real kv/memory implementation used directly (no chord routing / RPC marshalling in between)")
 }
